@@ -26,7 +26,7 @@ CPUS = {
     "m8c": (1, 3, 300, "thorough", [], False),
     "sweet16": (1, 3, 300, "thorough", [], False),
     "65816": (1, 4, 300, "thorough", [], False),
-    "stm8": (1, 5, 900, "thorough", [], False),
+    # stm8 was tried (table scan needs more than 300 unwindings; with 900 it does not finish in 900 s): not decided
     # z80 (reads ahead, 2-safety form) was tried and does not finish (out of memory at 10 GB, timeout at 2400 s with 30 GB): not decided
 }
 GROUPS = []
